@@ -1175,6 +1175,31 @@ pub fn c04(_class: &str, seed: u64, p: &Params) -> Out {
             bad_tc.votes[0].2 += 1;
             let b2 = f.block(author, round + 2, qc.clone(), Some(bad_tc), payload.clone());
             expect(&mut o, &mut table, "block/embedded-tc-altered".into(), false, es(b2.verify(c)), desc.clone());
+            // A block that directly extends its QC and nevertheless carries a TC: the TC is not bound
+            // by the digest, so it can be spliced onto an honest block; it must be verified all the same.
+            for kind in 0..4 {
+                let mut b2 = b.clone();
+                let mut tc = f.tc(round + 7, &entries);
+                match kind {
+                    0 => tc.round += 1,
+                    1 => {
+                        tc.votes.pop();
+                    }
+                    2 => {
+                        for v in tc.votes.iter_mut() {
+                            v.1 = Signature::default();
+                        }
+                    }
+                    _ => tc.votes[0].2 += 1,
+                }
+                b2.tc = Some(tc);
+                expect(&mut o, &mut table, format!("block/direct-extension-with-invalid-tc/{}", kind), false, es(b2.verify(c)), desc.clone());
+            }
+            {
+                let mut b2 = b.clone();
+                b2.tc = Some(f.tc(round + 7, &entries));
+                expect(&mut o, &mut table, "block/direct-extension-with-valid-tc".into(), true, es(b2.verify(c)), desc.clone());
+            }
             let mut b2 = b.clone();
             b2.author = outsider.0;
             b2.signature = Signature::new(&b2.digest(), &outsider.1);
